@@ -173,7 +173,7 @@ func init() {
 			var maxFld types.Object = c.LookupField("lint.aritySpec.max")
 			optO, keyO, varO := flagOf["OptArgSymbol"], flagOf["KeyArgSymbol"], flagOf["VarArgSymbol"]
 			var minO, maxO types.Object
-			if cntSwitch == nil {
+			byReach := func() {
 				// the "default case" of a chain: what runs when the text equals none of the control
 				// symbols; the counter incremented only behind the optional/key flags is the minimum
 				reach := fc.reachableUnder(func(e ast.Expr) int {
@@ -205,7 +205,8 @@ func init() {
 				for b := range reach {
 					for _, n := range b.Nodes {
 						if inc, ok := n.(*ast.IncDecStmt); ok && inc.Tok == token.INC {
-							if o := identObj(info, inc.X); o != nil {
+							// a local counter, or a field of the result being built (`spec.max++`)
+							if o := identObjOrSel(info, inc.X); o != nil {
 								incBlocks[o] = append(incBlocks[o], b)
 							}
 						}
@@ -224,6 +225,9 @@ func init() {
 						maxO = o
 					}
 				}
+			}
+			if cntSwitch == nil {
+				byReach()
 			}
 			var swClauses []ast.Stmt
 			if cntSwitch != nil {
@@ -255,7 +259,7 @@ func init() {
 							return false
 						case *ast.IncDecStmt:
 							if x.Tok == token.INC {
-								if o := identObj(info, x.X); o != nil {
+								if o := identObjOrSel(info, x.X); o != nil {
 									if underFlag {
 										minO = o
 									} else {
@@ -270,6 +274,12 @@ func init() {
 				for _, st := range cc.Body {
 					walk(st, false)
 				}
+			}
+			if cntSwitch != nil && (minO == nil || maxO == nil) {
+				// a switch whose control cases `continue` and whose counting follows the switch
+				// instead of sitting in a default clause: what runs when the text equals none of
+				// the control symbols (the synthesised `tag == case` conditions decide it)
+				byReach()
 			}
 			if minO == nil || maxO == nil || optO == nil || keyO == nil || varO == nil {
 				obs = append(obs, mkOb(c, "ARITY.table-shape", u, "counting rule", litNode, Undecided, "expected two counters incremented by the default case and one flag set by each control-symbol case", false))
@@ -289,7 +299,7 @@ func init() {
 			required := fc.edgesEntailing(cls, func(v map[string]bool) bool { return (v["$has:opt"] && !v["opt"]) && (v["$has:key"] && !v["key"]) })
 			minBlocks := fc.blocksWith(func(n ast.Node) bool {
 				s, ok := n.(*ast.IncDecStmt)
-				return ok && s.Tok == token.INC && identObj(info, s.X) == minO
+				return ok && s.Tok == token.INC && identObjOrSel(info, s.X) == minO
 			})
 			okMin := len(minBlocks) > 0 && len(required) > 0
 			for b := range minBlocks {
@@ -389,6 +399,47 @@ func init() {
 							if fc.reachableAvoiding(b, unb) {
 								okMax = false
 							}
+						}
+					}
+				}
+			}
+			if mv, isFld := maxO.(*types.Var); !okMax && len(bounded) > 0 && isFld && mv.IsField() && maxO == maxFld {
+				// the counters ARE the fields of the result (`var spec aritySpec; spec.max++ …;
+				// if sawRest || sawKey { spec.max = unbounded }; return spec`): the counted value
+				// leaves the function only past the overwrite or over an edge entailing
+				// !variadic && !inKey
+				over := fc.blocksWith(func(n ast.Node) bool {
+					as, ok := n.(*ast.AssignStmt)
+					if !ok || len(as.Lhs) != len(as.Rhs) {
+						return false
+					}
+					for i, l := range as.Lhs {
+						if identObjOrSel(info, l) == maxO {
+							if k, okc := intConst(info, as.Rhs[i]); okc && k == -1 {
+								return true
+							}
+						}
+					}
+					return false
+				})
+				rets := fc.blocksWith(func(n ast.Node) bool {
+					rs, ok := n.(*ast.ReturnStmt)
+					if !ok || len(rs.Results) == 0 {
+						return false
+					}
+					_, isId := ast.Unparen(rs.Results[0]).(*ast.Ident)
+					return isId
+				})
+				if len(over) > 0 && len(rets) > 0 {
+					okMax = true
+					for b := range rets {
+						if fc.reachableAvoidingBlocks(b, bounded, over) {
+							okMax = false
+						}
+					}
+					for b := range over {
+						if fc.reachableAvoiding(b, unb) {
+							okMax = false
 						}
 					}
 				}
@@ -541,6 +592,26 @@ func init() {
 					}
 					if o := identObj(info, x.X); o != nil && o == userDefsObj {
 						usesUserDefs = true
+					}
+				case *ast.CallExpr:
+					// the exemption set handed to a helper of the package that indexes it
+					// (`checkedCoreName(sexpr, fileDefs)`)
+					h := originOf(Callee(info, x))
+					hd := c.declOf[h]
+					if h == nil || hd == nil || hd.Body == nil || h.Pkg() != p.Types || userDefsObj == nil {
+						return true
+					}
+					hps := paramObjs(FuncUnit{h, hd, c.pkgOf[hd]})
+					for i, a := range x.Args {
+						if identObj(info, a) != userDefsObj || i >= len(hps) {
+							continue
+						}
+						ast.Inspect(hd.Body, func(m ast.Node) bool {
+							if ie, ok := m.(*ast.IndexExpr); ok && identObj(info, ie.X) == hps[i] {
+								usesUserDefs = true
+							}
+							return true
+						})
 					}
 				}
 				return true
